@@ -98,6 +98,12 @@ theorem name_absolute_iff (w : Watch) (r : Raw) (arg : Path) (hw : w.path = clea
   · rw [hh]; exact clean_head_slash arg
   · exact clean_head_slash arg
 
+/-- the stored path ends in a separator only when it is the root: the separator that the name-building
+concatenation inserts (backend_inotify.go, `name += "/" + …`; `nameOf` here) is the only one at the junction
+for every watch but one on `/` itself -/
+theorem stored_path_no_trailing_slash (arg : Path) :
+    clean arg = [slash] ∨ (clean arg).getLast? ≠ some slash := clean_no_trailing_slash arg
+
 /-- non-vacuity: a relative argument with `..` and `//`, an entry name, a relative event name -/
 example : nameOf ⟨1, 0, clean [46, 46, 47, 47, 97], false⟩ ⟨1, 0x100, 0, 16, [98, 0, 0]⟩ = [46, 46, 47, 97, 47, 98] := by decide
 
